@@ -32,7 +32,7 @@ SHARD_TIMEOUT = {'quick': 900, 'thorough': 5400}
 
 
 def gen_cases(tier, seed):
-    n = 320 if tier == 'quick' else 40000
+    n = 640 if tier == 'quick' else 40000
     return [{'i': i, 'seed': seed} for i in range(n)]
 
 
@@ -40,6 +40,7 @@ def gen_bam(r, contigs):
     recs = []
     meta = []
     rid = 0
+    pool = [(r.randrange(len(contigs)), r.randrange(200, 2500)) for _ in range(r.randint(2, 6))]   # restriction-site like pile-ups
     for _ in range(r.randint(10, 70)):
         rid += 1
         tid = r.randrange(len(contigs))
@@ -48,6 +49,10 @@ def gen_bam(r, contigs):
         qlen = sum(int(n) for n, o in __import__('re').findall(r'(\d+)([MIDNS])', cig) if o in 'MIS')
         rlen = sum(int(n) for n, o in __import__('re').findall(r'(\d+)([MIDNS])', cig) if o in 'MDN')
         pos = r.randrange(0, ln - rlen - 1)
+        if r.random() < 0.45:
+            tid, pos = r.choice(pool)          # several reads start at the same coordinate but differ in length / CIGAR
+            ln = contigs[tid][1]
+            pos = min(pos, ln - rlen - 1)
         paired = r.random() < 0.7
         kind = r.choice(['r1', 'r1', 'r2']) if paired else 'single'
         mate_unmapped = paired and r.random() < 0.15
@@ -143,7 +148,7 @@ def make_args(r, bam, dd, contigs, recs):
                 f.write('\t'.join(map(str, row)) + '\n')
         a['bedfile'] = bed
         a['_bed_rows'] = rows
-    if r.random() < 0.25:
+    if r.random() < 0.4:
         # intervals longer than a read, edges >= 2bp away from any read end
         ends = {}
         for rec in recs:
@@ -153,10 +158,13 @@ def make_args(r, bam, dd, contigs, recs):
             rl = sum(int(n) for n, o in re.findall(r'(\d+)([MIDNS])', rec['cigar']) if o in 'MDN')
             ends.setdefault(contigs[rec['tid']][0], set()).update([rec['pos'], rec['pos'] + rl, rec['pos'] + rl - 1])
         rows = []
-        for _ in range(r.randint(1, 3)):
+        for _ in range(r.randint(1, 4)):
             c, ln = r.choice(contigs)
             for _try in range(30):
                 s = r.randrange(0, ln - 200)
+                if _try < 15 and ends.get(c):
+                    # just behind a read start: covers the end of a long read that starts there but not a short one
+                    s = min(max(0, r.choice(sorted(ends[c])) + r.randint(-100, 60)), ln - 200)
                 e = s + r.randint(150, 400)
                 if all(abs(x - s) >= 2 and abs(x - e) >= 2 for x in ends.get(c, ())):
                     rows.append((c, s, e))
